@@ -357,6 +357,46 @@ func TestC11Requests(t *testing.T) {
 					keepReading()
 				}
 			},
+			// an answer with an illegal return code: the client resets the
+			// connection, which must release every request waiting on it
+			"illegalAnswer": func(rt *rapid.T) {
+				c := h.Current()
+				if c == nil {
+					rt.Skip("no connection")
+				}
+				var idx = -1
+				owed := c.Owed()
+				for i, o := range owed {
+					if o.Kind == refmqtt.SUBACK {
+						idx = i
+					}
+				}
+				if idx < 0 {
+					rt.Skip("no SUBACK owed")
+				}
+				o := owed[idx]
+				codes := append([]byte(nil), o.Codes...)
+				codes[rapid.IntRange(0, len(codes)-1).Draw(rt, "which")] = byte(rapid.SampledFrom([]int{3, 0x7f, 0x81, 0xff}).Draw(rt, "code"))
+				h.Act("answer %s with illegal return codes %x", o, codes)
+				var waiting []*rq
+				for _, r := range m.reqs {
+					if !m.IsDone(r.call) {
+						// (a Ping may still be waiting for the write lock: it has no
+						// identifiable packet, so it is left to the final check)
+						if _, conn, complete, _, _ := m.packetOf(r); complete && conn == c.N {
+							waiting = append(waiting, r)
+						}
+					}
+				}
+				c.SetOwedCodes(idx, codes)
+				c.Release(idx)
+				keepReading()
+				for _, r := range waiting {
+					h.MustPoll(fmt.Sprintf("call %d %s returning after the connection was reset for an illegal SUBACK", r.call.N, r.kind), func() bool {
+						return h.IsDone(r.call) || len(h.ParkedGates()) > 0 || h.WritersParkedAny()
+					})
+				}
+			},
 			"unsolicited": func(rt *rapid.T) {
 				c := h.Current()
 				if c == nil || !c.State.Accepted {
